@@ -107,7 +107,7 @@ def r2_r3(ctx, prog):
            'double append is %s' % ('bracketed by appendLock/appendUnlock' if bracketed else 'serialised by the global dispatch lock (R2 holds for every caller)' if serialized else 'NOT atomic: neither bracketed nor serialised'),
            where=fe.loc(allaps[0]['i']))
     a1, a2 = allaps
-    hdr_ok = fe.cfg.dominates(q.pt(fe, a1), q.pt(fe, a2)) and 'sizeof' not in '' and fe.s(fe.strip_casts(a1['args'][1])).get('cv') is not None \
+    hdr_ok = fe.cfg.dominates(q.pt(fe, a1), q.pt(fe, a2)) and q.const_of(fe, a1['args'][1]) is not None \
         and fe.path(a1['args'][0]) == 'content'
     ctx.ob('C09.R3', '%s|header-first' % fe.name, hdr_ok, 'first append is the fixed-size header (content, sizeof(LogContent)) and dominates the text append', where=fe.loc(a1['i']))
     txt_ok = fe.path(a2['args'][0]) == 'content.text_ptr' and fe.path(a2['args'][1]) == 'content.text_len'
@@ -541,7 +541,7 @@ def r9(ctx, prog):
     # the pipe carries the whole record: the front end appends sizeof(LogContent) bytes of the record itself
     fe = prog.fn1(ASINK + '::onLogFrontEnd')
     aps = [c for c in fe.calls() if c.get('fn') == 'append']
-    ok = any(fe.path(c['args'][0]) == fe.params[0]['n'] and (fe.s(fe.strip_casts(c['args'][1])) or {}).get('cv') is not None for c in aps if len(c.get('args', ())) == 2)
+    ok = any(fe.path(c['args'][0]) == fe.params[0]['n'] and q.const_of(fe, c['args'][1]) is not None for c in aps if len(c.get('args', ())) == 2)
     ctx.ob('C09.R9', '%s|whole-header' % fe.name, ok, 'the front end ships the whole LogContent (sizeof) through the pipe', where=fe.loc(fe.body))
 
 
@@ -701,4 +701,6 @@ def run(ctx):
     ctx.guard(C09_replay.r13, ctx, prog)
     from rules import C09_sinks
     ctx.guard(C09_sinks.r14, ctx, prog)
+    from rules import C09_async
+    ctx.guard(C09_async.r15, ctx, prog)
     return prog
